@@ -174,7 +174,7 @@ class Ctx:
             return
         # continue under the assumption that the obligation holds
         if not z3.is_true(g):
-            self.pc.append((goal, None))
+            self.pc.append((goal, KNOW))
             if not _has_quant(goal):
                 self.solver.add(goal)
 
